@@ -42,7 +42,6 @@ Definition empty_node : node := mkNode [] [] false.
 
 Record store := mkStore {
   nodes : list node;
-  next_id : N;                      (* id supply: uuid4 never collides *)
 }.
 
 Definition node_at (s : store) (a : addr) : node := nth a (nodes s) empty_node.
@@ -55,13 +54,11 @@ Fixpoint upd_nth {A} (l : list A) (n : nat) (f : A -> A) : list A :=
   end.
 
 Definition upd_node (s : store) (a : addr) (f : node -> node) : store :=
-  mkStore (upd_nth (nodes s) a f) (next_id s).
+  mkStore (upd_nth (nodes s) a f).
 
 Definition new_node (s : store) (n : node) : store * addr :=
-  (mkStore (nodes s ++ [n]) (next_id s), length (nodes s)).
+  (mkStore (nodes s ++ [n]), length (nodes s)).
 
-Definition fresh_id (s : store) : store * tok :=
-  (mkStore (nodes s) (N.succ (next_id s)), TI (next_id s)).
 
 (* ---- attributes *)
 Fixpoint assoc_get {V} (k : str) (l : list (str * V)) : option V :=
@@ -149,8 +146,7 @@ Definition id_in (s : store) (a : addr) (ids : list tok) : bool :=
 Definition delete_all (s : store) (ids : list tok) : store :=
   mkStore (map (fun n => mkNode (attrs n)
                                 (filter (fun p => negb (id_in s (snd p) ids)) (links n))
-                                (isdata n)) (nodes s))
-          (next_id s).
+                                (isdata n)) (nodes s)).
 
 (* get_by_id: first child (creation order) whose entity_id is the key *)
 Fixpoint find_by_id (s : store) (i : tok) (l : list (tok * addr)) : option (tok * addr) :=
